@@ -310,6 +310,13 @@ func run(prop string, spec *PropSpec, tier, repo, verif, onlyRule, replayKey str
 			}
 		}
 	}
+	if onlyRule == "" && replayKey == "" {
+		for _, u := range known.Undecided {
+			if u.Property == prop {
+				fmt.Printf("KNOWN-FINDING: property=%s (no rule decides this one; demo %s) %s\n", prop, u.Demo, u.What)
+			}
+		}
+	}
 	wall := time.Since(startTime).Seconds()
 	fmt.Printf("elkcheck property=%s tier=%s obligations=%d discharged=%d known=%d violated=%d wall=%.1fs\n",
 		prop, tier, len(all), nDis, nKnown, nViol, wall)
